@@ -1,10 +1,11 @@
 package main
 
 import (
-	"bytes"
 	"encoding/json"
 	"fmt"
+	"io/ioutil"
 	"math"
+	"path/filepath"
 	"reflect"
 	"sort"
 	"strings"
@@ -478,9 +479,8 @@ func paramsOf(d distObj) (ps []float64, panicMsg string) {
 // ImportConfig, instead of a new object from the registry.
 func importInto(n *docNode, d distObj, b []byte) (r distObj, err error, panicMsg string) {
 	panicMsg = vh.Try(func() {
-		cfg := ConfigDistribution{}
-		if err = cfg.ReadJson(bytes.NewReader(b)); err != nil {
-			return
+		if e := ioutil.WriteFile(distPath, b, 0644); e != nil {
+			vh.Fatal("scratch write:", e)
 		}
 		var u distObj
 		if u, err = buildDist(n); err != nil {
@@ -505,31 +505,40 @@ func importInto(n *docNode, d distObj, b []byte) (r distObj, err error, panicMsg
 		}); ok {
 			vh.Try(func() { h.SetStartStates([]int{1}); h.SetFinalStates([]int{0}) })
 		}
-		if err = ub.ImportConfig(cfg, Float64Type); err == nil {
+		if err = ImportDistribution(distPath, ub, Float64Type); err == nil {
 			r = u
 		}
 	})
 	return
 }
 
+// scratch file of the configuration round trips (set by the caller)
+var distPath string
+
+// importAs reads the configuration file by NAME through the registries
+// (ImportScalarPdf / ImportVectorPdf / ImportMatrixPdf: ImportJson, then the
+// family registered under the name, nested families likewise); a family that
+// is none of the three density kinds is read with ImportDistribution.
 func importAs(d distObj, b []byte) (r distObj, err error, panicMsg string) {
 	panicMsg = vh.Try(func() {
-		cfg := ConfigDistribution{}
-		if err = cfg.ReadJson(bytes.NewReader(b)); err != nil {
-			return
+		if e := ioutil.WriteFile(distPath, b, 0644); e != nil {
+			vh.Fatal("scratch write:", e)
 		}
 		switch {
 		case d.s != nil:
-			r.s, err = ImportScalarPdfConfig(cfg, Float64Type)
+			r.s, err = ImportScalarPdf(distPath, Float64Type)
 		case d.v != nil:
-			r.v, err = ImportVectorPdfConfig(cfg, Float64Type)
+			r.v, err = ImportVectorPdf(distPath, Float64Type)
 		case d.m != nil:
-			r.m, err = ImportMatrixPdfConfig(cfg, Float64Type)
+			r.m, err = ImportMatrixPdf(distPath, Float64Type)
 		case d.o != nil:
 			n := reflect.New(reflect.TypeOf(d.o).Elem()).Interface().(BasicDistribution)
-			if err = n.ImportConfig(cfg, Float64Type); err == nil {
+			if err = ImportDistribution(distPath, n, Float64Type); err == nil {
 				r.o = n
 			}
+		}
+		if err != nil {
+			r = distObj{}
 		}
 	})
 	return
@@ -700,10 +709,12 @@ func (r *runner) runDist(ci int, c *tcase, raw json.RawMessage) {
 	}
 	r.jr.at(ci, 0, "dist-export")
 	var doc []byte
+	distPath = filepath.Join(r.scratch, "dist.json")
 	if p := vh.Try(func() {
-		var buf bytes.Buffer
-		err = d.basic().ExportConfig().WriteJson(&buf)
-		doc = buf.Bytes()
+		// file level: ExportDistribution -> ExportConfig -> ExportJson
+		if err = ExportDistribution(distPath, d.basic()); err == nil {
+			doc, err = ioutil.ReadFile(distPath)
+		}
 	}); p != "" {
 		r.distReport(c, raw, "encoder_panic", p, nil)
 		return
